@@ -36,16 +36,12 @@ Proof. exact field_imports_cover. Qed.
 Print Assumptions C07_field_imports_cover_extensions.
 
 (* ---- acceptance of the documented language.  Full statement: *)
-Definition C07_full_statement : Prop :=
-  forall p, in_language p = true -> o_verdict (compile_iso p) = VOk.
+Definition C07_full_statement : Prop := full_language_statement.
 
 (* it does not hold: float rules ("TODO: float rules not implemented") and list rules on an
    informal key ("unknown key format") are rejected — recorded findings *)
 Theorem C07_language_refuted : ~ C07_full_statement.
-Proof.
-  intros H. pose proof (H float_rules_witness) as Hf.
-  destruct language_refuted as [Hl [Hv _]]. rewrite (Hf Hl) in Hv. discriminate.
-Qed.
+Proof. exact full_language_refuted. Qed.
 Print Assumptions C07_language_refuted.
 
 (* what holds: everything in the language except those two combinations is accepted and links;
@@ -53,9 +49,7 @@ Print Assumptions C07_language_refuted.
 Theorem C07_language_accepted_partial : forall p,
   in_language p = true -> uses_float_rules p = false -> uses_informal_key_listrules p = false ->
   o_verdict (compile_iso p) = VOk.
-Proof.
-  intros p H1 H2 H3. apply iso_language_accepted. unfold accepted_language. rewrite H1, H2, H3. reflexivity.
-Qed.
+Proof. exact language_accepted_partial. Qed.
 Print Assumptions C07_language_accepted_partial.
 
 (* conversely a property is rejected only when it is outside the accepted language, and a rejection
@@ -68,6 +62,12 @@ Print Assumptions C07_rejects_only_outside_language.
 Theorem C07_errors_nonempty : forall p, o_verdict (compile_iso p) = VConvErr -> 1 <= iso_nerr p.
 Proof. exact iso_errors_nonempty. Qed.
 Print Assumptions C07_errors_nonempty.
+(* positions: NOT a theorem about positions lying inside the file; only that, syntactically, addError calls
+   errpos.AddPosition under the single guard `loc != nil` and GetPos returns the address of a literal (so the
+   guard never fails); whether the position is right is checked by the oracle on every error *)
+Theorem C07_adderror_attaches_position : errors_positioned = true.
+Proof. exact errors_positioned_holds. Qed.
+Print Assumptions C07_adderror_attaches_position.
 
 (* ---- (ii) the call-site table, recomputed over the regenerated list on every run *)
 Theorem C07_sites_agree : sites_same_set = true.
@@ -112,14 +112,29 @@ Theorem C07_object_shell_accepted : forall entity, verdict_d (compile_object_she
 Proof. exact object_shell_accepted. Qed.
 Print Assumptions C07_object_shell_accepted.
 
+(* ---- whole files: any number of declarations, objects and oneofs with any number of properties
+   (each property contributes what it contributes alone: conversion reads neither the import list nor the
+   errors recorded so far).  Without list requests the converter does not panic and every output file
+   links; a file of in-language declarations (minus the recorded gaps) is accepted; and it stays accepted
+   when any declarations are removed: nothing depends on an unrelated declaration being present *)
+Theorem C07_file_total_links_partial : forall ds, no_list_requests ds ->
+  file_verdict ds <> VPanic /\ file_verdict ds <> VLinkErr.
+Proof. exact file_total_links. Qed.
+Print Assumptions C07_file_total_links_partial.
+Theorem C07_file_accepted_partial : forall ds,
+  no_list_requests ds -> forallb decl_in_language ds = true -> file_verdict ds = VOk.
+Proof. exact file_accepted. Qed.
+Print Assumptions C07_file_accepted_partial.
+Theorem C07_file_isolation : forall ds ds', no_list_requests ds -> forallb decl_in_language ds = true ->
+  (forall d, In d ds' -> In d ds) -> file_verdict ds' = VOk.
+Proof. exact file_isolation. Qed.
+Print Assumptions C07_file_isolation.
+
 (* services: full statement *)
-Definition C07_service_full_statement : Prop :=
-  forall sv, service_in_language sv = true -> verdict_d (compile_service sv) = VOk.
+Definition C07_service_full_statement : Prop := service_full_statement.
 (* refuted: a method with a list request panics in SetExtension (recorded finding) *)
 Theorem C07_service_refuted : ~ C07_service_full_statement.
-Proof.
-  intro H. destruct service_listrequest_panics as [Hl Hp]. rewrite (H _ Hl) in Hp. discriminate.
-Qed.
+Proof. exact service_full_refuted. Qed.
 Print Assumptions C07_service_refuted.
 (* partial: without list requests a service never panics and always links (whatever its methods:
    missing request, bad verb, unknown path parameter), and is accepted when in the language;
@@ -149,7 +164,8 @@ Theorem C07_every_field_type_has_an_arm :
 Proof. exact every_field_type_has_an_arm. Qed.
 Print Assumptions C07_every_field_type_has_an_arm.
 
-(* every explicit panic( call in the anchored files is a model Panic site or a reviewed printer-side site *)
+(* census only: every explicit panic( call of the scanned packages (compile/print path incl. internal/bcl/** and
+   lib/j5reflect) is listed; 2 of 14 are Panic sites of the model, the others are explored under recover(), not proved *)
 Theorem C07_panic_sites_agree : panic_sites_same_set = true.
 Proof. exact panic_sites_agree. Qed.
 Print Assumptions C07_panic_sites_agree.
